@@ -223,7 +223,10 @@ def restore_renamed(tree: ast.Module, modname: str, baseline: Optional[Dict[str,
         for nq, fn, cls in new:
             if nq in used or nq in have and nq in known['functions']:
                 continue
-            if (nq.rsplit('.', 1)[0] if '.' in nq else '') != parent_q:
+            nparent = nq.rsplit('.', 1)[0] if '.' in nq else ''
+            # same scope, or a private method that became a private module-level function
+            if nparent != parent_q and not (nparent == '' and '.' not in parent_q and parent_q and old_name.startswith('_')
+                                            and fn.name.startswith('_')):
                 continue
             names = set(_mangled(cls.name if cls is not None else None, fn.name))
             if all(any(isinstance(c, ast.Call) and ((isinstance(c.func, ast.Attribute) and c.func.attr in names)
@@ -236,6 +239,13 @@ def restore_renamed(tree: ast.Module, modname: str, baseline: Optional[Dict[str,
         # the callers must not have gained other new callees that could equally be it: the candidate is unique by construction;
         # arity must agree
         old_params = known.get('params', {}).get(q)
+        if (nq.rsplit('.', 1)[0] if '.' in nq else '') != parent_q:
+            if _bring_home(tree, q, nq, fn, cls, old_params):
+                used.add(nq)
+                protected.add(fn.name)
+                log.append('%s: %s was moved to %s (the only new function its callers %s call in its place) - analysed at its '
+                           'old place' % (modname, q, nq, sorted(callers)))
+            continue
         if old_params is not None and len(old_params) != len(fn.args.args):
             continue
         used.add(nq)
@@ -243,6 +253,289 @@ def restore_renamed(tree: ast.Module, modname: str, baseline: Optional[Dict[str,
         log.append('%s: %s was renamed to %s (the only new function its callers %s call in its place) - analysed under its old name'
                    % (modname, q, nq, sorted(callers)))
     PROTECTED[id(tree)] = protected
+    return log
+
+
+def restore_private_properties(tree: ast.Module, modname: str) -> List[str]:
+    """step Y: a private read-only property whose getter is one `return <expression over fields of self>` - the fields assigned
+    only in `__init__` (set once), or other such properties - is not a unit of its own in the pinned decomposition:
+      * if the pinned `__init__` assigns an attribute of that name, the attribute is assigned again, right after the last of the
+        fields it is computed from (`self._kv_sep = ': ' if self._requested_indent is not None else ':'`);
+      * otherwise every read `self._p` in the methods of the class is the expression."""
+    log: List[str] = []
+    known = known_functions().get(modname, {})
+    sources = known.get('sources', {})
+    for cls in [c for c in tree.body if isinstance(c, ast.ClassDef)]:
+        methods = [m for m in cls.body if isinstance(m, ast.FunctionDef)]
+        init = next((m for m in methods if m.name == '__init__'), None)
+        if init is None or not init.args.args:
+            continue
+        iself = init.args.args[0].arg
+        names = [m.name for m in methods]
+
+        def simple(e) -> bool:
+            return all(isinstance(n, (ast.Attribute, ast.Name, ast.Constant, ast.Compare, ast.BoolOp, ast.IfExp, ast.UnaryOp, ast.Not,
+                                      ast.And, ast.Or, ast.Is, ast.IsNot, ast.Eq, ast.NotEq, ast.Load, ast.Lt, ast.Gt, ast.LtE, ast.GtE,
+                                      ast.In, ast.NotIn)) for n in ast.walk(e))
+        props = {}
+        for m in methods:
+            if len(m.decorator_list) == 1 and isinstance(m.decorator_list[0], ast.Name) and m.decorator_list[0].id == 'property' \
+                    and m.name.startswith('_') and not m.name.endswith('__') and names.count(m.name) == 1 and len(m.args.args) == 1:
+                body = [st for st in m.body if not _is_doc_or_log(st)]
+                if len(body) == 1 and isinstance(body[0], ast.Return) and body[0].value is not None and simple(body[0].value):
+                    sn = m.args.args[0].arg
+                    if all(n.id == sn for n in ast.walk(body[0].value) if isinstance(n, ast.Name)):
+                        props[m.name] = (m, body[0].value, sn)
+        if not props:
+            continue
+        mangled = {nm: set(_mangled(cls.name, nm)) for nm in props}
+        # stores of attributes anywhere in the module
+        stores = {}
+        for n in ast.walk(tree):
+            if isinstance(n, ast.Attribute) and isinstance(n.ctx, (ast.Store, ast.Del)):
+                stores.setdefault(n.attr, []).append(n)
+        init_top_stores = {}
+        for k, st in enumerate(init.body):
+            if isinstance(st, (ast.Assign, ast.AnnAssign)):
+                for t in (st.targets if isinstance(st, ast.Assign) else [st.target]):
+                    if isinstance(t, ast.Attribute) and isinstance(t.value, ast.Name) and t.value.id == iself:
+                        init_top_stores.setdefault(t.attr, []).append(k)
+
+        def set_once(attr) -> bool:
+            return attr in init_top_stores and len(stores.get(attr, [])) == len(init_top_stores[attr]) == 1
+        pinned_init = sources.get('%s.__init__' % cls.name, '')
+        done = True
+        resolved = {}
+        while done:
+            done = False
+            for nm, (m, expr, sn) in list(props.items()):
+                if nm in resolved:
+                    continue
+                fields = {n.attr for n in ast.walk(expr) if isinstance(n, ast.Attribute)}
+                if any(stores.get(x) for x in mangled[nm]):
+                    continue
+                if not all(set_once(f) or any(f in mangled[r_] for r_ in resolved) for f in fields):
+                    continue
+                # expand reads of already resolved properties
+                e2 = copy.deepcopy(expr)
+
+                class _Exp(ast.NodeTransformer):
+                    def visit_Attribute(self, n):
+                        self.generic_visit(n)
+                        for r_, (re_, rs_) in resolved.items():
+                            if n.attr in mangled[r_] and isinstance(n.value, ast.Name) and n.value.id == sn and isinstance(n.ctx, ast.Load):
+                                class _S(ast.NodeTransformer):
+                                    def visit_Name(self, x):
+                                        return ast.Name(sn, ast.Load()) if x.id == rs_ else x
+                                return _S().visit(copy.deepcopy(re_))
+                        return n
+                e2 = _Exp().visit(e2)
+                resolved[nm] = (e2, sn)
+                done = True
+        for nm, (e2, sn) in resolved.items():
+            m = props[nm][0]
+            fields = {n.attr for n in ast.walk(e2) if isinstance(n, ast.Attribute)}
+            if not all(set_once(f) for f in fields):
+                continue
+            as_attribute = any(('self.%s =' % x) in pinned_init or ('self.%s:' % x) in pinned_init for x in mangled[nm])
+
+            def inst(selfn):
+                class _S(ast.NodeTransformer):
+                    def visit_Name(self, x):
+                        return ast.Name(selfn, ast.Load()) if x.id == sn else x
+                return _S().visit(copy.deepcopy(e2))
+            if as_attribute:
+                after = max(init_top_stores[f][0] for f in fields) if fields else len(init.body) - 1
+                # nothing between may already read it: it is assigned as early as its inputs allow
+                st = ast.Assign([ast.Attribute(ast.Name(iself, ast.Load()), nm, ast.Store())], inst(iself), None)
+                ast.copy_location(st, init.body[after])
+                init.body.insert(after + 1, st)
+                for f in init_top_stores:
+                    init_top_stores[f] = [k + 1 if k > after else k for k in init_top_stores[f]]
+                cls.body.remove(m)
+                log.append('%s: property %s.%s is the attribute __init__ assigns again' % (modname, cls.name, nm))
+            else:
+                ok = True
+                sites = []
+                for g in [x for x in cls.body if isinstance(x, ast.FunctionDef) and x is not m]:
+                    gself = g.args.args[0].arg if g.args.args else None
+                    for n in ast.walk(g):
+                        if isinstance(n, ast.Attribute) and n.attr in mangled[nm]:
+                            if not (isinstance(n.value, ast.Name) and n.value.id == gself and isinstance(n.ctx, ast.Load)):
+                                ok = False
+                            sites.append((g, n, gself))
+                outside = [n for n in ast.walk(tree) if isinstance(n, ast.Attribute) and n.attr in mangled[nm]
+                           and not any(n is x for _, x, _ in sites) and not any(n is y for y in ast.walk(m))]
+                if not ok or outside:
+                    continue
+                for g, n, gself in sites:
+                    new = inst(gself)
+                    for par in ast.walk(g):
+                        for fld, val in ast.iter_fields(par):
+                            if val is n:
+                                setattr(par, fld, new)
+                            elif isinstance(val, list):
+                                for i_, x in enumerate(val):
+                                    if x is n:
+                                        val[i_] = new
+                cls.body.remove(m)
+                log.append('%s: property %s.%s is read as its expression (%d site(s))' % (modname, cls.name, nm, len(sites)))
+    if log:
+        ast.fix_missing_locations(tree)
+    return log
+
+
+def restore_instance_methods(tree: ast.Module, modname: str) -> List[str]:
+    """step P, first part: a pinned private instance method that does not use its instance any more and was made a @staticmethod
+    (called as `Class.__m(..)` or `self.__m(..)`) becomes the instance method again: `self` is put back in front, and every call
+    site - all of them must sit in methods of the same class, or in the method itself - is made through the caller's own `self`."""
+    log: List[str] = []
+    frozen = known_functions().get(modname, {}).get('params', {})
+    for q, fn, cls, _ in _scopes(tree):
+        if q not in frozen or not isinstance(fn, ast.FunctionDef) or cls is None or not frozen[q] or frozen[q][0] != 'self':
+            continue
+        if not any(isinstance(d, ast.Name) and d.id == 'staticmethod' for d in fn.decorator_list) or len(fn.decorator_list) != 1:
+            continue
+        name = fn.name
+        if not name.startswith('_') or (name.startswith('__') and name.endswith('__')):
+            continue
+        if any(x.arg == 'self' for x in fn.args.args) or any(isinstance(n, ast.Name) and n.id == 'self' for n in ast.walk(fn)):
+            continue
+        names = set(_mangled(cls.name, name))
+        methods = [m for m in cls.body if isinstance(m, (ast.FunctionDef, ast.AsyncFunctionDef))]
+        in_method = {}
+        for m in methods:
+            for n in ast.walk(m):
+                in_method[id(n)] = m
+        sites, ok = [], True
+        for c in ast.walk(tree):
+            if isinstance(c, ast.Attribute) and c.attr in names:
+                m = in_method.get(id(c))
+                if m is None or not isinstance(c.value, ast.Name):
+                    ok = False
+                    break
+                if m is fn:
+                    selfn = 'self'
+                else:
+                    if any(isinstance(d, ast.Name) and d.id in ('staticmethod', 'classmethod') for d in m.decorator_list) or not m.args.args:
+                        ok = False
+                        break
+                    selfn = m.args.args[0].arg
+                if c.value.id not in (selfn, cls.name):
+                    ok = False
+                    break
+                sites.append((c, selfn))
+            elif isinstance(c, ast.Name) and c.id in names:
+                ok = False
+                break
+        if not ok:
+            continue
+        for c, selfn in sites:
+            c.value = ast.copy_location(ast.Name(selfn, ast.Load()), c.value)
+        fn.args.args.insert(0, ast.arg('self', None))
+        fn.decorator_list = []
+        log.append('%s: %s is an instance method again (was made a static method; called through the caller\'s self)' % (modname, q))
+    if log:
+        ast.fix_missing_locations(tree)
+    return log
+
+
+def restore_projected_parameters(tree: ast.Module, modname: str) -> List[str]:
+    """step P, between: a pinned private method lost exactly one pinned parameter D and gained exactly one new parameter R, and every
+    call site outside the method binds R to one and the same attribute path of a plain name (`dumper.yaml_representers`) while the
+    method's own recursive calls hand R on unchanged: R is the projection `D.path` computed by the callers.  The method takes D
+    again and reads `D.path` where it read R (R must not be rebound); outside callers pass the base object."""
+    log: List[str] = []
+    frozen = known_functions().get(modname, {}).get('params', {})
+    for q, fn, cls, _ in _scopes(tree):
+        if q not in frozen or not isinstance(fn, ast.FunctionDef) or cls is None:
+            continue
+        name = fn.name
+        if not name.startswith('_') or (name.startswith('__') and name.endswith('__')):
+            continue
+        a = fn.args
+        if a.vararg or a.kwarg or a.posonlyargs or a.kwonlyargs or fn.decorator_list:
+            continue
+        now = [x.arg for x in a.args]
+        old = frozen[q]
+        lost = [p_ for p_ in old if p_ not in now]
+        gained = [p_ for p_ in now if p_ not in old]
+        if len(lost) != 1 or len(gained) != 1 or not now or now[0] != old[0]:
+            continue
+        D, R = lost[0], gained[0]
+        nd = len(a.defaults)
+        if R in now[len(now) - nd:]:
+            continue
+        if any(isinstance(n, ast.Name) and n.id == R and not isinstance(n.ctx, ast.Load) for n in ast.walk(fn)) \
+                or any(isinstance(n, ast.Name) and n.id == D for n in ast.walk(fn)) \
+                or any(isinstance(n, (ast.FunctionDef, ast.Lambda)) and n is not fn for n in ast.walk(fn)):
+            continue
+        names = set(_mangled(cls.name, name))
+        inside = {id(n) for n in ast.walk(fn)}
+        pos = now.index(R) - 1
+        sites, ok = [], True
+        for c in ast.walk(tree):
+            if isinstance(c, ast.Call) and isinstance(c.func, ast.Attribute) and c.func.attr in names:
+                if any(isinstance(x, ast.Starred) for x in c.args) or any(k.arg is None for k in c.keywords):
+                    ok = False
+                    break
+                arg = c.args[pos] if pos < len(c.args) else next((k.value for k in c.keywords if k.arg == R), None)
+                if arg is None:
+                    ok = False
+                    break
+                sites.append((c, arg, id(c) in inside))
+        if not ok or not sites:
+            continue
+        paths = set()
+        for c, arg, rec in sites:
+            if rec:
+                if not (isinstance(arg, ast.Name) and arg.id == R):
+                    ok = False
+            else:
+                base = arg
+                while isinstance(base, ast.Attribute):
+                    base = base.value
+                if not (isinstance(arg, ast.Attribute) and isinstance(base, ast.Name)):
+                    ok = False
+                else:
+                    paths.add(ast.unparse(arg)[len(base.id):])
+        if not ok or len(paths) != 1 or not any(not rec for _, _, rec in sites):
+            continue
+        path = paths.pop()
+        expr = ast.parse(D + path, mode='eval').body
+
+        class _Sub(ast.NodeTransformer):
+            def visit_Name(self, n):
+                return copy.deepcopy(expr) if n.id == R and isinstance(n.ctx, ast.Load) else n
+        # recursive sites first get the plain name back (they are inside the body that is rewritten next)
+        for c, arg, rec in sites:
+            if rec:
+                arg.id = '__projected__'
+        fn.body = [_Sub().visit(st) for st in fn.body]
+        for n in ast.walk(fn):
+            if isinstance(n, ast.Name) and n.id == '__projected__':
+                n.id = D
+        for c, arg, rec in sites:
+            if not rec:
+                base = arg
+                while isinstance(base, ast.Attribute):
+                    base = base.value
+                new = ast.copy_location(ast.Name(base.id, ast.Load()), arg)
+                if pos < len(c.args):
+                    c.args[pos] = new
+                else:
+                    for k in c.keywords:
+                        if k.arg == R:
+                            k.value = new
+            for k in c.keywords:
+                if k.arg == R:
+                    k.arg = D
+        for x in a.args:
+            if x.arg == R:
+                x.arg = D
+        log.append('%s: %s takes %s again and reads %s%s itself (the callers handed that in as %s)' % (modname, q, D, D, path, R))
+    if log:
+        ast.fix_missing_locations(tree)
     return log
 
 
@@ -315,6 +608,84 @@ def restore_parameter_order(tree: ast.Module, modname: str) -> List[str]:
         a.args = [by_name[p_] for p_ in new]
         a.defaults = [dflt[p_] for p_ in new if p_ in dflt]
         log.append('%s: %s takes (%s) again (was (%s))' % (modname, q, ', '.join(new), ', '.join(now)))
+    if log:
+        ast.fix_missing_locations(tree)
+    return log
+
+
+def restore_state_parameters(tree: ast.Module, modname: str) -> List[str]:
+    """step P, second half: an additional trailing parameter of a pinned private method that every call site binds to the same
+    attribute path of the receiver (`self.__attr_index(a, self.yaml_node)`, the receiver being a plain name) and that the body
+    never rebinds is that state read inside again.  Runs after step P proper and once more after normalisation (which may only
+    then have turned a local alias `pairs = self.yaml_node.value` at the call site back into the attribute path)."""
+    log: List[str] = []
+    frozen = known_functions().get(modname, {}).get('params', {})
+    for q, fn, cls, _ in _scopes(tree):
+        if q not in frozen or not isinstance(fn, ast.FunctionDef) or cls is None:
+            continue
+        name = fn.name
+        if not name.startswith('_') or (name.startswith('__') and name.endswith('__')):
+            continue
+        if any(isinstance(d, ast.Name) and d.id in ('staticmethod', 'classmethod') for d in fn.decorator_list):
+            continue
+        a = fn.args
+        if a.vararg or a.kwarg or a.posonlyargs or a.kwonlyargs or a.defaults:
+            continue
+        now = [x.arg for x in a.args]
+        old = frozen[q]
+        if now[:len(old)] != old or len(now) == len(old):
+            continue
+        sites = []
+        ok = True
+        for c in ast.walk(tree):
+            if not isinstance(c, ast.Call):
+                continue
+            f_ = c.func
+            nm = f_.attr if isinstance(f_, ast.Attribute) else f_.id if isinstance(f_, ast.Name) else None
+            if nm is None or not (nm == name or nm == '_%s%s' % (cls.name.lstrip('_'), name)):
+                continue
+            if any(isinstance(x, ast.Starred) for x in c.args) or any(k.arg is None for k in c.keywords):
+                ok = False
+                break
+            sites.append(c)
+        if not ok or not sites:
+            continue
+        selfn = now[0]
+        for p_ in now[len(old):]:
+            cur = [x.arg for x in a.args]
+            pos = cur.index(p_) - 1
+            texts, good = set(), True
+            for c in sites:
+                arg = c.args[pos] if pos < len(c.args) else next((k.value for k in c.keywords if k.arg == p_), None)
+                recv = c.func.value if isinstance(c.func, ast.Attribute) else None
+                if arg is None or not isinstance(recv, ast.Name):
+                    good = False
+                    break
+                base = arg
+                while isinstance(base, ast.Attribute):
+                    base = base.value
+                if not (isinstance(arg, ast.Attribute) and isinstance(base, ast.Name) and base.id == recv.id):
+                    good = False
+                    break
+                texts.add(ast.unparse(arg)[len(recv.id):])
+            rebound = any(isinstance(n, ast.Name) and n.id == p_ and not isinstance(n.ctx, ast.Load) for n in ast.walk(fn)) \
+                or any(isinstance(n, (ast.FunctionDef, ast.Lambda)) and n is not fn for n in ast.walk(fn))
+            if not good or len(texts) != 1 or rebound:
+                continue
+            path = texts.pop()          # '.yaml_node'
+            expr = ast.parse(selfn + path, mode='eval').body
+
+            class _Sub(ast.NodeTransformer):
+                def visit_Name(self, n):
+                    return copy.deepcopy(expr) if n.id == p_ and isinstance(n.ctx, ast.Load) else n
+            fn.body = [_Sub().visit(st) for st in fn.body]
+            for c in sites:
+                if pos < len(c.args):
+                    del c.args[pos]
+                else:
+                    c.keywords = [k for k in c.keywords if k.arg != p_]
+            a.args = [x for x in a.args if x.arg != p_]
+            log.append('%s: %s reads %s%s itself again (every call site handed it in as %s)' % (modname, q, selfn, path, p_))
     if log:
         ast.fix_missing_locations(tree)
     return log
